@@ -234,6 +234,11 @@ let parse_wscript s =
       | _ -> failwith "wscript")
   | _ -> failwith "wscript"
 
+let patbuf n = List.init n (fun _ -> byte_tab.(0xaa))
+let fres_s = function
+  | None -> "PANIC"
+  | Some (b, n) -> hex_of_bytes b ^ " ret=" ^ string_of_int (int_of_nat n)
+
 let run_case (line : string) : string =
   match split ' ' line with
   | ["VBENC"; n] ->
@@ -259,6 +264,20 @@ let run_case (line : string) : string =
   | ["WENC"; w; v] ->
     let bs = encode (wt_of_string w) (value_of_string v) in
     hex_of_bytes bs ^ " w=" ^ string_of_int (List.length bs)
+  | ["WFILL"; w; v; bl; i] ->
+    fres_s (wfill (wt_of_string w) (value_of_string v) (patbuf (int_of_string bl)) (nat_of_int (int_of_string i)))
+  | ["WFILLP"; w; v; id; bl; i] ->
+    fres_s (wfill_prop (wt_of_string w) (n_of_string id) (value_of_string v)
+              (patbuf (int_of_string bl)) (nat_of_int (int_of_string i)))
+  | ["UPFILL"; k; v; prop; bl; i] ->
+    let kv = (bytes_of_hex k, bytes_of_hex v) in
+    let buf = patbuf (int_of_string bl) and i = nat_of_int (int_of_string i) in
+    fres_s (if prop = "1" then fill_userprop_prop (n_of_int 38) kv buf i else fill_userprop kv buf i)
+  | "PFILL" :: k :: bl :: i :: calls ->
+    let k = kind_of_string k in
+    let p = List.fold_left (fun p t -> step (parse_call t) p) (ctor k) calls in
+    if k = KUndefined then "NOFILL" else
+    fres_s (pfill_pkt k p (patbuf (int_of_string bl)) (nat_of_int (int_of_string i)))
   | ["R"; m; sc] -> read_all (int_of_string m) (parse_script sc)
   | ["U"; k; init; h] ->
     let k = kind_of_string k in
@@ -308,7 +327,9 @@ let run_case (line : string) : string =
   | "W" :: k :: ws :: calls ->
     let k = kind_of_string k in
     let p = List.fold_left (fun p t -> step (parse_call t) p) (ctor k) calls in
-    (match write_to k p (parse_wscript ws) with
+    let ws = parse_wscript ws in
+    if write_to2 k p ws <> write_to k p ws then "DRIVER-ERROR two-pass model differs from byte-list model" else
+    (match write_to2 k p ws with
      | None -> "PANIC"
      | Some r ->
        "n=" ^ string_of_int (int_of_nat r.w_n) ^ " err=" ^
